@@ -96,6 +96,22 @@ func (m *writeMon) ownsCell(p *value) bool {
 	return false
 }
 
+// ownsObject: is the object handed to a pool owned by the monitored region?
+func (m *writeMon) ownsObject(v value) bool {
+	switch v := v.(type) {
+	case iface:
+		return m.ownsObject(v.v)
+	case *value:
+		return v == nil || m.ownsCell(v)
+	case []value:
+		if cap(v) == 0 {
+			return true
+		}
+		return m.ownsCell(&v[:cap(v)][0])
+	}
+	return true
+}
+
 func harnessFrame(fr *frame) bool {
 	for f := fr; f != nil; f = f.caller {
 		if f.fn.Pkg != nil && f.fn.Pos().IsValid() {
